@@ -83,6 +83,12 @@ def _all():
             ders.append([L[1], L[0]])
         for R in ders:
             yield {"fam": "derived", "L": L, "R": R}
+    # both sides infeasible (an infeasible left side refines everything, including an infeasible right side and itself)
+    inf = [[[{"x": 1}, 0], [{"x": -1}, -2]], [[{"x": 1, "y": 1}, -2], [{"x": -1, "y": -1}, 1]], [[{"y": 2}, 1], [{"y": -1}, -1]]]
+    for a in inf:
+        for b in inf:
+            yield {"fam": "margin", "L": a, "R": b}
+            yield {"fam": "margin", "L": a + [[{"x": 1}, 5]], "R": b}
     # margins: the right side is a term of the left side tightened / loosened by a small amount (tolerance handling)
     for L in L2:
         for t in L:
